@@ -27,6 +27,8 @@ import (
 
 func init() { families["stack"] = runStack }
 
+var frameSize = 1024
+
 const setupCode = "11122333"
 
 type world struct {
@@ -231,12 +233,16 @@ func runStack(id string, toks []string) (res string) {
 		hclog.Info.SetOutput(os.Stderr)
 	}
 	pin, nacc := setupCode, 0
+	frameSize = 1024
 	for _, op := range toks[1:] {
 		if strings.HasPrefix(op, "pin=") {
 			pin = op[4:]
 		}
 		if strings.HasPrefix(op, "nacc=") {
 			nacc, _ = strconv.Atoi(op[5:])
+		}
+		if strings.HasPrefix(op, "fsz=") {
+			frameSize, _ = strconv.Atoi(op[4:])
 		}
 	}
 	w, err := newWorld(pin, nacc)
@@ -247,7 +253,7 @@ func runStack(id string, toks []string) (res string) {
 	var out []string
 	emit := func(s string) { out = append(out, s) }
 	for _, op := range toks[1:] {
-		if strings.HasPrefix(op, "tbl=") || strings.HasPrefix(op, "pin=") || strings.HasPrefix(op, "nacc=") {
+		if strings.HasPrefix(op, "tbl=") || strings.HasPrefix(op, "pin=") || strings.HasPrefix(op, "nacc=") || strings.HasPrefix(op, "fsz=") {
 			continue
 		}
 		p := strings.Split(op, ":")
@@ -258,6 +264,7 @@ func runStack(id string, toks []string) (res string) {
 				emit("N=err")
 				continue
 			}
+			cc.frameSize = frameSize
 			w.conns[p[1]] = cc
 		case "K":
 			if cc := w.conns[p[1]]; cc != nil {
